@@ -39,10 +39,11 @@ type respProg struct {
 	trailers []wire.Header
 	immFlush bool
 	fails    bool // the body stream breaks off: no complete response can be written
+	connFree bool // the Connection header of this response is not judged
 	desc     string
 }
 
-var c04Statuses = []int{200, 200, 200, 201, 204, 206, 301, 304, 400, 404, 500, 599, 100, 101}
+var c04Statuses = []int{200, 200, 200, 201, 204, 206, 301, 304, 400, 404, 500, 599, 100, 101, 205, 203}
 var c04Sizes = []int{0, 1, 2, 100, 4095, 4096, 4097, 8191, 8192, 8193, 20000, 70000}
 
 type pieceReader struct {
@@ -238,8 +239,27 @@ func genProg(tp *core.Tape, idx int, ep *core.Episode, method string) *respProg 
 		ep.Probe("mode-stream-unknown")
 		p.body = body
 		r := mkReader()
-		p.immFlush = tp.Chance("imm", 1, 3)
-		p.ops = append(p.ops, func(ctx *app.RequestContext) { ctx.SetBodyStream(r, -1) })
+		// 0..2 as before (2: immediate header flush); 3: the handler removes Transfer-Encoding again after installing
+		// the stream; 4: size -2 ("identity")
+		uk := tp.Choose("imm", 5)
+		p.immFlush = uk == 2
+		p.ops = append(p.ops, func(ctx *app.RequestContext) {
+			switch uk {
+			case 3:
+				ctx.SetBodyStream(r, -1)
+				ctx.Response.Header.Del("Transfer-Encoding")
+			case 4:
+				ctx.SetBodyStream(r, -2)
+			default:
+				ctx.SetBodyStream(r, -1)
+			}
+		})
+		if uk >= 3 {
+			ep.Probe("stream-unknown-variants")
+		}
+		if uk == 4 {
+			p.connFree = true // "identity" length: whether hertz announces a close depends on status and method; the framing is what is judged
+		}
 	case 6:
 		ep.Probe("mode-stream-limited")
 		p.body = body
@@ -569,6 +589,12 @@ func RunC04(ep *core.Episode) {
 			}
 		}
 		wantClose := reqClose || p.close || (http10 && !reqKA)
+		if p.connFree {
+			wantClose = connHdr == "close"
+			if http10 && !wantClose {
+				connHdr = "keep-alive"
+			}
+		}
 		if p.mode == 7 {
 			// the hijacked writer has sent the header block before the server
 			// takes its connection decision; the Connection rule cannot apply
